@@ -108,7 +108,7 @@ func c05GenThreadingConc(r *verifh.Rng) []verifh.Section {
 		secs = append(secs, verifh.Section{Cfg: fmt.Sprintf("kind=runner mode=conc n=%d", n), Ops: []string{
 			fmt.Sprintf("run g=%d iters=%d imm=%d pan=%d exits=%s rs=%d", g, r.Range(10, verifh.Scale(40, 120)), r.Pick(0, 30, 70), r.Pick(0, 10, 40), r.PickS("s", "seg", "e"), r.Intn(1<<30)),
 			fmt.Sprintf("run g=%d iters=%d imm=%d pan=%d exits=%s rs=%d", g, r.Range(5, 30), 50, 100, r.PickS("seg", "g", "se"), r.Intn(1<<30)),
-			fmt.Sprintf("waitprobe rounds=%d pan=%d exits=%s rs=%d", r.Range(100, verifh.Scale(300, 1000)), r.Pick(0, 0, 30, 100), r.PickS("s", "seg"), r.Intn(1<<30)),
+			fmt.Sprintf("waitprobe rounds=%d pan=%d exits=%s rs=%d", r.Range(600, verifh.Scale(1500, 4000)), r.Pick(0, 0, 30, 100), r.PickS("s", "seg"), r.Intn(1<<30)),
 		}})
 	}
 	return secs
